@@ -306,6 +306,95 @@ func check(c Case, o *stats.Obs) error {
 			}
 		}
 	}
+	// The owner of a decoded message may do what it likes with it - strike cells out of the matrix, zero
+	// satellites and signals.  The next decode (of the same frame here) must not notice.
+	{
+		frame := m.Frame()
+		if m.IsMSM7() {
+			if k, _ := msm7.GetMessage(frame, lv); k != nil {
+				if k.Header != nil {
+					for _, row := range k.Header.Cells {
+						for i := range row {
+							row[i] = false
+						}
+					}
+					for i := range k.Header.Satellites {
+						k.Header.Satellites[i] = 0
+					}
+					for i := range k.Header.Signals {
+						k.Header.Signals[i] = 0
+					}
+				}
+				for i := range k.Satellites {
+					k.Satellites[i].ID, k.Satellites[i].RangeWholeMillis = 0, 0
+				}
+				for _, row := range k.Signals {
+					for i := range row {
+						row[i].ID = 0
+					}
+				}
+			}
+		} else {
+			if k, _ := msm4.GetMessage(frame, lv); k != nil {
+				if k.Header != nil {
+					for _, row := range k.Header.Cells {
+						for i := range row {
+							row[i] = false
+						}
+					}
+					for i := range k.Header.Satellites {
+						k.Header.Satellites[i] = 0
+					}
+					for i := range k.Header.Signals {
+						k.Header.Signals[i] = 0
+					}
+				}
+				for i := range k.Satellites {
+					k.Satellites[i].ID, k.Satellites[i].RangeWholeMillis = 0, 0
+				}
+				for _, row := range k.Signals {
+					for i := range row {
+						row[i].ID = 0
+					}
+				}
+			}
+		}
+		got, err := decodeDirect(frame, m.IsMSM7(), lv)
+		if err != nil {
+			o.Key = "decode-after-owner-edit"
+			return fmt.Errorf("a well-formed type %d message is rejected after the owner of an earlier decoded message edited that message: %v\nframe %x", m.Type, err, frame)
+		}
+		if d := diff(got, w); d != "" {
+			o.Key = "decode-after-owner-edit"
+			return fmt.Errorf("a type %d message (shape %s) decodes wrongly after the owner of an earlier decoded message edited that message (cell matrix cleared, ids zeroed): %s\nframe %x", m.Type, c.Shape, d, frame)
+		}
+	}
+	// The frame handed over as a sub-slice of a larger receive buffer: decoding must neither change the
+	// frame nor anything behind it in the buffer (the slice's spare capacity).
+	{
+		frame := m.Frame()
+		big := make([]byte, 0, 8+len(frame)+24)
+		big = append(big, 0xE1, 0xE2, 0xE3, 0xE4, 0xE5, 0xE6, 0xE7, 0xE8)
+		big = append(big, frame...)
+		for i := 0; i < 24; i++ {
+			big = append(big, 0xEE)
+		}
+		orig := append([]byte{}, big...)
+		sub := big[8 : 8+len(frame)]
+		got, err := decodeDirect(sub, m.IsMSM7(), lv)
+		d := ""
+		if err == nil {
+			d = diff(got, w)
+		}
+		if err != nil || d != "" {
+			o.Key = "subslice-decode"
+			return fmt.Errorf("type %d message decoded from a sub-slice of a larger buffer: error %v, %s\nframe %x", m.Type, err, d, frame)
+		}
+		if !bytes.Equal(big, orig) {
+			o.Key = "decoder-wrote-to-buffer"
+			return fmt.Errorf("decoding a type %d message from a sub-slice changed the caller's buffer (frame or the bytes behind it): before %x after %x", m.Type, orig, big)
+		}
+	}
 	// non-trivial rule
 	lastZero := nCells > 0 && m.Sigs[nCells-1] == (enc.SigCell{})
 	diffCounts := false
